@@ -151,6 +151,7 @@ pub fn differential(prog: &Program, site: &str, family: &str, case: &Value, ctx:
     };
     rep.tag("compile:ok");
     if !opts.props_ir.is_empty() {
+        rep.tag("irck:checked(core,mono,lift,anf)");
         for (stage, msg) in crate::irck::check_all(&comp) {
             rep.tag(format!("irck:{}", stage));
             for p in opts.props_ir {
